@@ -81,6 +81,8 @@ def vector_size_invariant(prog, cls, field):
         return None
     K = None
     for c in ctors:
+        if c.rec.get('defaulted') and (c.rec.get('copy') or c.rec.get('move')):
+            continue      # member-wise copy: the size of the source
         sz = _ctor_sizing(prog, c, cls, field)
         if sz is None:
             return None
@@ -357,7 +359,9 @@ def header_writer_rule(prog, res, rule='header-write', int_scale_ok=False):
                 if not vals or any(not P.equal(v, wantp) for v in vals):
                     bad = 'emitted value is %s, expected %s' % ('|'.join(P.show(v) for v in (vals or [])) or '?', P.show(wantp))
             else:
-                if not (src == base or src.startswith(base + '[')):
+                if fld.get('one_based') and src.replace(' ', '') in ('(%s+1)' % base, '(1+%s)' % base, '(unsignedlong)(%s+1)' % base):
+                    pass      # the value member + 1 handed over as a temporary
+                elif not (src == base or src.startswith(base + '[')):
                     bad = 'emitted from %s, the field is %s' % (src, fld['member'])
                 elif fld.get('one_based'):
                     bad = '1-based frame number must be written as member + 1'
@@ -896,12 +900,16 @@ def leaf_writer(prog, res, rule, f, leaf_items, prefix):
         it = cur[0]
         if it[0] != 'alt':
             break
-        m = re.match(r'^\(\(int\)this\._data_type == (-?\d+)\)$', it[1])
-        if not m:
+        ts_ = re.findall(r'\(\(int\)this\._data_type == (-?\d+)\)', it[1])
+        if not ts_ or not re.match(r'^[()| ]*(?:\(\(int\)this\._data_type == -?\d+\)[()| ]*)+$', it[1]):
             break
-        t = m.group(1)
+        for t_extra in ts_[1:]:
+            # a shared branch (BYTE and INT): judged once, under its first label, with the same expectations
+            seen.add(t_extra)
+        t = ts_[0]
+        shared = ts_
         seen.add(t)
-        c = Checker(prog, res, rule, f, it[2], '%s[type=%s]' % (prefix, t))
+        c = Checker(prog, res, rule, f, it[2], '%s[type=%s]' % (prefix, '|'.join(ts_)))
         if t == '-1':
             char_cell(c, 'this._param_data_string[arg3]', L['data']['cite'])
         elif t in want:
@@ -911,7 +919,8 @@ def leaf_writer(prog, res, rule, f, leaf_items, prefix):
             dd = itw[1] if itw else None
             if dd is None or dd.get('srck') != 'object' or dd.get('src') != want[t][0]:
                 c.bad('data', c.where(itw), 'element of type %s must be emitted from %s, found %s' % (t, want[t][0], describe(itw)))
-            elif pshow(dd.get('width')) not in (t, 'this._data_type'):
+            elif pshow(dd.get('width')) not in (t, 'this._data_type') or (len(shared) > 1 and pshow(dd.get('width')) != 'this._data_type') or \
+                    any(want.get(x) != want[t] for x in shared):
                 c.bad('data', dd['where'], 'element of type %s is %s byte(s) wide, %s are written' % (t, t, pshow(dd.get('width'))))
             elif (dd.get('src_tc'), dd.get('src_tw')) != want[t][1]:
                 c.bad('data', dd['where'], 'element storage is %s/%s bits, expected %s/%d' % (dd.get('src_tc'), dd.get('src_tw'), want[t][1][0], want[t][1][1]))
@@ -1938,6 +1947,10 @@ def frame_writer_rule(prog, res, rule='frame-write'):
 def copy_completeness_rule(prog, res, rule='copy-complete'):
     n = 0
     for f in prog.repo_funcs():
+        if f.kind == 'ctor' and f.rec.get('copy') and not f.implicit and f.rec.get('defaulted'):
+            n += 1
+            res.ok(rule, '%s (defaulted)' % f.cls.split('::')[-1], f.loc(), '`= default`: every member is copied', function=f.sig, expr='defaulted', nontrivial=False)
+            continue
         if f.kind != 'ctor' or not f.rec.get('copy') or f.implicit or f.rec.get('defaulted'):
             continue      # an implicit or `= default` copy constructor copies member by member
         cls = prog.classes.get(f.cls)
@@ -1997,11 +2010,18 @@ def load_order_rule(prog, res, rule='load-order'):
     g = f.events()
     pv = uv = dv = hv = None
     for n in f.nodes:
-        if n['k'] == 'CXXConstructExpr' and n['callee'].get('class') == 'ezc3d::ParametersNS::Parameters' and n['callee']['nparams'] == 1:
+        built = None
+        if n['k'] == 'CXXConstructExpr' and n['callee']['nparams'] == 1:
+            built = n['callee'].get('class')
+        elif n['k'] == 'CallExpr' and 'callee' in n:
+            mk = prog.makes(f, n)
+            if mk and mk['nparams'] == 1:
+                built = mk['class']
+        if built == 'ezc3d::ParametersNS::Parameters':
             pv = g.vertex_of.get(n['id'])
-        if n['k'] == 'CXXConstructExpr' and n['callee'].get('class') == 'ezc3d::DataNS::Data' and n['callee']['nparams'] == 1:
+        if built == 'ezc3d::DataNS::Data':
             dv = g.vertex_of.get(n['id'])
-        if n['k'] == 'CXXConstructExpr' and n['callee'].get('class') == 'ezc3d::Header' and n['callee']['nparams'] == 1:
+        if built == 'ezc3d::Header':
             hv = g.vertex_of.get(n['id'])
         if n['k'] == 'CXXMemberCallExpr' and n['callee']['qname'] == 'ezc3d::c3d::updateHeader':
             uv = g.vertex_of.get(n['id'])
@@ -2328,7 +2348,7 @@ def truncating_write_rule(prog, res, rule='truncating-write'):
             res.viol(rule, inst, d['where'],
                      'the low %d byte(s) of a %d-byte value (%s) are written with no proof that it fits and no range check: a larger value is silently reduced and the file loads to something else' %
                      (wc, size, '|'.join(pshow(v) for v in vals) if vals else src), function=f.sig, expr=key)
-    res.minimum('truncating writes examined', n, 25)
+    res.minimum('truncating writes examined', n, 20)
 
 
 def vector_elems_fit(prog, cls, field, nbytes):
@@ -2391,7 +2411,10 @@ def float_path_rule(prog, res, rule='float-path'):
         n += 1
         where = '%s:%d' % (c['file'].replace(prog.repo + '/', ''), fl[0]['line'])
         short = '%s::%s' % (cls.split('::')[-1], field)
-        if fl[0]['type'] != want:
+        same_family = want.startswith('std::vector<float>') and re.match(r'^(std::array<float, \d+>|float\[\d+\]|std::vector<float>)$', fl[0]['type'])
+        if same_family:
+            res.ok(rule, short + ' storage', where, fl[0]['type'] + ' (elements are float)', function='', expr=short + ':type')
+        elif fl[0]['type'] != want:
             res.viol(rule, short + ' storage', where, 'REAL payload is stored as %s instead of %s: values pass through a conversion (signalling NaNs and other patterns are not preserved)' % (fl[0]['type'], want),
                      function='', expr=short + ':type')
         else:
